@@ -24,12 +24,14 @@ open Rpyc Rpyc.Srv
 def AcceptSurvives (cfg : Cfg) : Prop :=
   ∀ ops : List Op, (∀ op ∈ ops, op.c16 = true) → Accepting (run (init cfg) ops)
 
-/-- (2) a well-behaved client that is being served stays served and gets every call answered, whatever the history
-before and whatever the other clients do meanwhile -/
+/-- (2) a well-behaved client that is being served stays served and gets every request answered - pings, calls that lend
+it an object, uses of object ids (its own, foreign, released), releases - with the reply its OWN history entitles it to
+(`answered`: a request/response ledger that the other clients' events do not enter), whatever the history before and
+whatever the other clients do meanwhile -/
 def GoodClientUnaffected (cfg : Cfg) : Prop :=
   ∀ (before : List Op) (g : Nat) (ops : List Op), (∀ op ∈ before, op.c16 = true) →
-    Ready ((run (init cfg) before).cli g) → OthersAndPings g ops →
-    pongs g ops (runObs (run (init cfg) before) ops)
+    Ready ((run (init cfg) before).cli g) → OthersAndCalls g ops →
+    answered g ((run (init cfg) before).cli g).table ops (runObs (run (init cfg) before) ops)
 
 /-- (3) distinct connections have distinct service instances and distinct object tables, always -/
 def Isolation (cfg : Cfg) : Prop := ∀ ops : List Op, Iso (run (init cfg) ops)
@@ -67,17 +69,18 @@ theorem new_client_served (cfg : Cfg) (hk : cfg.kind = .threaded ∨ cfg.kind = 
   obtain ⟨t, h1, h2, h3, _⟩ := connect_served (accept_survives cfg hk ops hops) hne g hg
   exact ⟨t, h1, h2, h3⟩
 
+/-- **isolation** (every kind, every history, the server's own close included): no two connections share a service
+instance or an entry of their object tables; both are allocated from counters -/
+theorem isolation (cfg : Cfg) : Isolation cfg := fun ops => (Iso.init cfg).run ops
+
 /-- **good_client_unaffected** (threaded, forking): after any history, whatever the other clients do — each of them
-only ever changes its own record (`others_untouched`) — every call of a served client is answered correctly -/
+only ever changes its own record (`others_untouched`) — every request of a served client, of whatever kind, is answered
+as its own history says -/
 theorem good_client_unaffected (cfg : Cfg) (hk : cfg.kind = .threaded ∨ cfg.kind = .forking) :
     GoodClientUnaffected cfg := by
   intro before g ops _ hr hops
   have hpool : cfg.kind ≠ .pool := by rcases hk with h | h <;> simp [h]
-  exact unaffected_run g (by rw [run_cfg]; exact hk) (run_queue cfg hpool before) hr ops hops
-
-/-- **isolation** (every kind, every history, the server's own close included): no two connections share a service
-instance or an entry of their object tables; both are allocated from counters -/
-theorem isolation (cfg : Cfg) : Isolation cfg := fun ops => (Iso.init cfg).run ops
+  exact answered_run g (by rw [run_cfg]; exact hk) (run_queue cfg hpool before) (isolation cfg before) hr ops hops
 
 /-- ... so an object lent to one client does not resolve on another client's connection: the call fails there -/
 theorem foreign_reference_fails (cfg : Cfg) (hk : cfg.kind ≠ .pool) (ops : List Op) (i g oid : Nat) (hne : i ≠ g)
@@ -102,10 +105,22 @@ of a served client is answered correctly -/
 theorem good_client_unaffected_pool (cfg : Cfg) (hk : cfg.kind = .pool) (hspare : cfg.spare = true) (before : List Op)
     (g : Nat) (ops : List Op)
     (hb : ∀ op ∈ before, op.c16 = true) (hr : Ready ((run (init cfg) before).cli g))
-    (hfree : FreeWorkerAlong (run (init cfg) before) ops) (hops : OthersAndPings g ops) :
-    pongs g ops (runObs (run (init cfg) before) ops) := by
+    (hfree : FreeWorkerAlong (run (init cfg) before) ops) (hops : OthersAndCalls g ops) :
+    answered g ((run (init cfg) before).cli g).table ops (runObs (run (init cfg) before) ops) := by
   obtain ⟨hup, hq⟩ := run_pool_inv cfg hk before hb
-  exact unaffected_run_pool g (by rw [run_cfg]; exact hk) (by rw [run_cfg]; exact hspare) hup hq hr ops hfree hops
+  exact answered_run_pool g (by rw [run_cfg]; exact hk) (by rw [run_cfg]; exact hspare) hup hq (isolation cfg before) hr
+    ops hfree hops
+
+/-- **a new client of the pool is served** at once, by a service instance of its own, after any history in which nobody
+stalled its authentication -/
+theorem new_client_served_pool (cfg : Cfg) (hk : cfg.kind = .pool) (ops : List Op)
+    (hops : ∀ op ∈ ops, op.c16 = true) (hns : ∀ op ∈ ops, ∀ k, op ≠ .connect k .silent) (g : Nat)
+    (hg : ((run (init cfg) ops).cli g).phase = .absent) :
+    ∃ t, step (run (init cfg) ops) (.connect g .good) = .ok (t, .ok) ∧ Ready (t.cli g) ∧
+      (t.cli g).inst = some (run (init cfg) ops).nextInst := by
+  have hne : (run (init cfg) ops).cfg.kind ≠ .oneshot := by rw [run_cfg]; simp [Srv.init, hk]
+  obtain ⟨t, h1, h2, h3, _⟩ := connect_served (accept_survives_pool cfg hk ops hops hns) hne g hg
+  exact ⟨t, h1, h2, h3⟩
 
 /-- each step of it: a served client's request is answered as soon as one worker is free -/
 theorem pool_call_answered (cfg : Cfg) (hk : cfg.kind = .pool) (ops : List Op) (hops : ∀ op ∈ ops, op.c16 = true)
@@ -118,6 +133,17 @@ theorem pool_call_answered (cfg : Cfg) (hk : cfg.kind = .pool) (ops : List Op) (
   have hpu : (run (init cfg) ops).poolUp = true := by rw [hup.2.2.2.2]; simp [hk']
   obtain ⟨t, h1, h2, _⟩ := call_answered_pool g r hk' hpu hq (by rw [run_cfg]; exact hfree) hr
   exact ⟨t, h1, h2⟩
+
+/-- **a foreign object id does not resolve on the pool either**: used on another client's connection, as soon as a worker
+is free, the call is answered - with a failure -/
+theorem foreign_reference_fails_pool (cfg : Cfg) (hk : cfg.kind = .pool) (ops : List Op)
+    (hops : ∀ op ∈ ops, op.c16 = true) (i g oid : Nat) (hne : i ≠ g)
+    (ho : oid ∈ ((run (init cfg) ops).cli i).table) (hr : Ready ((run (init cfg) ops).cli g))
+    (hfree : (run (init cfg) ops).blocked.length < cfg.nb) :
+    ∃ t, step (run (init cfg) ops) (.call g (.probe oid)) = .ok (t, .reply .keyError) := by
+  obtain ⟨t, ht, _⟩ := pool_call_answered cfg hk ops hops g (.probe oid) hr hfree
+  rw [foreign_id_fails (isolation cfg ops) i g oid hne ho] at ht
+  exact ⟨t, ht⟩
 
 /-! ### the pool server: the statement fails (findings `C16:pool:>=nbThreads-incomplete-frame-clients`,
 `C16:pool:auth-stall-blocks-accept`) -/
@@ -142,10 +168,10 @@ theorem C16_pool_witness :
 theorem C16_pool_counterexample : ¬ C16_statement := by
   intro h
   have h2 := (h poolCfg rfl (by decide) (by decide)).2.1 starve 3 [.call 3 .ping] (by decide)
-    (by simp only [Ready]; decide) (by intro op hop; simp at hop; subst hop; exact ⟨rfl, fun _ => rfl⟩)
+    (by simp only [Ready]; decide) (by intro op hop; simp at hop; subst hop; exact ⟨rfl, fun _ => ⟨.ping, rfl⟩⟩)
   have hobs : runObs (run (init poolCfg) starve) [.call 3 .ping] = [some .timeout] := by decide
   rw [hobs] at h2
-  simp [pongs] at h2
+  simp [answered, callOf] at h2
 
 def stallCfg : Cfg := { kind := .pool, auth := true, nb := 2, spare := Gen.Srv.poolDropSparesNewcomer }
 /-- a client connects to a pool server with an authenticator and sends nothing -/
@@ -178,7 +204,8 @@ meantime and whatever descriptor number they were given: only that client's own 
 theorem release_touches_only_its_own (s t : St) (o : Obs) (k g : Nat) (hk : s.cfg.kind = .pool)
     (hs : s.cfg.spare = true) (hst : step s (.releaseHook k) = .ok (t, o)) (hg : g ≠ k)
     (hb : (s.cli g).phase ≠ .backlog) (hq : g ∉ s.queue) : Same (s.cli g) (t.cli g) :=
-  others_untouched_pool hk hs (.releaseHook k) rfl g (by simp [Op.client, Ne.symm hg]) hb hq hst
+  others_untouched_pool hk hs (.releaseHook k) rfl g (by simp [Op.client, Ne.symm hg]) hb hq
+    (by intro _ _ h; cases h) hst
 
 /-- the interleaving: client 1 arms its service's `on_disconnect` to block and goes away; a worker closes its connection
 (descriptor number free) and sits in the hook; client 3 connects and is given that number; the hook returns -/
@@ -191,6 +218,20 @@ theorem reuse_ok :
       [some (.reply .pong), some (.reply .pong)] ∧
     ((run (init { kind := .pool, auth := false, nb := 2, spare := true }) reuse).cli 1).inFd = false ∧
     ((run (init { kind := .pool, auth := false, nb := 2, spare := true }) reuse).cli 3).inFd = true := by decide
+
+/-- runs with reused descriptor numbers and blocking hooks are runs of the alphabet: the run-level theorems cover them -/
+example : ∀ op ∈ reuse, op.c16 = true := by decide
+example : Accepting (run (init { kind := .pool, auth := false, nb := 2 }) reuse) :=
+  accept_survives_pool _ rfl reuse (by decide) (by intro op hop k h; subst h; simp [reuse] at hop)
+/-- client 2, served all along, is answered whatever kind of request it makes while client 1 leaves through its blocking
+hook and client 3 arrives on the reused number (`good_client_unaffected_pool` applies: its hypotheses hold) -/
+example : Ready ((run (init { kind := .pool, auth := false, nb := 3 }) (reuse.take 3)).cli 2) ∧
+    FreeWorkerAlong (run (init { kind := .pool, auth := false, nb := 3 }) (reuse.take 3))
+      [.abruptClose 1, .call 2 .lend, .connectReuse 3 1, .call 2 (.probe 0), .releaseHook 1, .call 2 .ping] ∧
+    runObs (run (init { kind := .pool, auth := false, nb := 3 }) (reuse.take 3))
+      [.abruptClose 1, .call 2 .lend, .connectReuse 3 1, .call 2 (.probe 0), .releaseHook 1, .call 2 .ping] =
+      [some .none, some (.reply (.ref 0)), some .ok, some (.reply .resolved), some .none, some (.reply .pong)] :=
+  ⟨by simp only [Ready]; decide, FreeWorkerAlong.of_bool _ _ (by decide), by decide⟩
 
 /-- **C16_pool_fd_reuse_counterexample**: with the pinned `_drop_connection(fd)` (remove whatever is stored under the number)
 the worker coming out of client 1's hook closes client 3's connection: its disconnect hook runs, it gets end-of-stream -/
@@ -208,8 +249,8 @@ theorem C16_partial (cfg : Cfg) :
       (∀ ops : List Op, (∀ op ∈ ops, op.c16 = true) → (∀ op ∈ ops, ∀ k, op ≠ .connect k .silent) →
         Accepting (run (init cfg) ops)) ∧
       (∀ (before : List Op) (g : Nat) (ops : List Op), (∀ op ∈ before, op.c16 = true) →
-        Ready ((run (init cfg) before).cli g) → FreeWorkerAlong (run (init cfg) before) ops → OthersAndPings g ops →
-        pongs g ops (runObs (run (init cfg) before) ops))) :=
+        Ready ((run (init cfg) before).cli g) → FreeWorkerAlong (run (init cfg) before) ops → OthersAndCalls g ops →
+        answered g ((run (init cfg) before).cli g).table ops (runObs (run (init cfg) before) ops))) :=
   ⟨fun hk => ⟨accept_survives cfg hk, good_client_unaffected cfg hk⟩, isolation cfg,
    fun hk hs => ⟨accept_survives_pool cfg hk, good_client_unaffected_pool cfg hk hs⟩⟩
 
@@ -249,11 +290,43 @@ example : Ready ((run (init threadedCfg) hostile).cli 1) := by simp only [Ready]
 example : runObs (run (init threadedCfg) hostile)
       [.call 1 .ping, Op.ofBytes 7 hostileEnv [9, 9, 9, 9, 9, 9], .abruptClose 5, .call 1 .ping, .call 1 (.probe 1)] =
     [some (.reply .pong), some .none, some .none, some (.reply .pong), some (.reply .keyError)] := by decide
+/-- ... and requests of every kind, while the others go on: client 1 is lent object 2, uses it (resolves), uses client 7's
+object 1 (fails), releases its own, uses it again (fails).  The run meets `OthersAndCalls`, and what `answered` says of it -/
+def goodOps : List Op :=
+  [.call 1 .lend, Op.ofBytes 7 hostileEnv [9, 9, 9, 9, 9, 9], .call 1 (.probe 2), .abruptClose 5, .call 1 (.probe 1),
+   .call 1 (.drop 2), .call 1 (.probe 2)]
+example : OthersAndCalls 1 goodOps := by
+  intro op hop
+  simp only [goodOps, List.mem_cons, List.not_mem_nil, or_false] at hop
+  rcases hop with rfl | rfl | rfl | rfl | rfl | rfl | rfl <;> refine ⟨by decide, ?_⟩ <;>
+    first
+      | exact fun _ => ⟨_, rfl⟩
+      | (intro h; exact absurd h (by decide))
+example : runObs (run (init threadedCfg) hostile) goodOps =
+    [some (.reply (.ref 2)), some .none, some (.reply .resolved), some .none, some (.reply .keyError),
+     some (.reply .done), some (.reply .keyError)] := by decide
+example : answered 1 ((run (init threadedCfg) hostile).cli 1).table goodOps (runObs (run (init threadedCfg) hostile) goodOps) :=
+  good_client_unaffected threadedCfg (Or.inl rfl) hostile 1 goodOps (by decide) (by simp only [Ready]; decide)
+    (by
+      intro op hop
+      simp only [goodOps, List.mem_cons, List.not_mem_nil, or_false] at hop
+      rcases hop with rfl | rfl | rfl | rfl | rfl | rfl | rfl <;> refine ⟨by decide, ?_⟩ <;>
+        first
+          | exact fun _ => ⟨_, rfl⟩
+          | (intro h; exact absurd h (by decide)))
 /-- the pool hypotheses are satisfiable: one blocked worker out of two, client 3 served and ready — and its call is
 answered (`pool_call_answered`) -/
 example : (run (init poolCfg) (starve.take 4)).blocked.length = 1 ∧ poolCfg.nb = 2 := by decide
 example : Ready ((run (init poolCfg) (starve.take 4)).cli 3) := by simp only [Ready]; decide
 example : runObs (run (init poolCfg) (starve.take 4)) [.call 3 .ping] = [some (.reply .pong)] := by decide
+/-- ... along a whole run with a worker blocked throughout: client 3 is lent an object and uses it while client 2 sends an
+undecodable frame and leaves (`FreeWorkerAlong` for a non-empty run) -/
+example : FreeWorkerAlong (run (init poolCfg) (starve.take 4))
+    [.call 3 .lend, .raw 2 [.bad], .call 3 (.probe 0), .abruptClose 2, .call 3 .ping] :=
+  FreeWorkerAlong.of_bool _ _ (by decide)
+example : runObs (run (init poolCfg) (starve.take 4))
+    [.call 3 .lend, .raw 2 [.bad], .call 3 (.probe 0), .abruptClose 2, .call 3 .ping] =
+    [some (.reply (.ref 0)), some .none, some (.reply .resolved), some .none, some (.reply .pong)] := by decide
 
 end Rpyc.Props.C16
 
